@@ -121,6 +121,10 @@ fn run_model_accumulation(ctx: &mut Ctx, r: &mut Rng) {
     let mut want: Vec<Vec<f64>> = params.iter().map(|p| vec![0.0; p.v.len()]).collect();
     let mut scale: Vec<Vec<f64>> = want.clone();
     let mut kinked = false;
+    if batches.iter().any(|(input, _)| saturates(&spec, &params, input)) {
+        ctx.count("model_accumulations_skipped_saturating", 1);
+        return;
+    }
     for (bi, (input, target)) in batches.iter().enumerate() {
         match loss_and_grads(&spec, &params, input, target) {
             Some((loss, g, sc, kink)) => {
